@@ -221,6 +221,59 @@ def run_case(chk: Check, mon: Monitors, seed: int, i: int) -> None:
         chk.count("construct:" + u)
 
 
+class _FixedSchema:
+    """A hand-shaped context for the directed family below (same interface as talref.Schema)."""
+
+    def __init__(self, vals: dict):
+        self.vals = vals
+
+    def build(self) -> dict:
+        import copy
+        return copy.deepcopy(self.vals)
+
+
+def directed_case(chk: Check, mon: Monitors, seed: int, i: int) -> None:
+    """Directed family: one element carrying tal:repeat together with tal:attributes whose
+    expressions fall back to `default` for *some* items (the element's own attribute value
+    must then show, not a value left over from an earlier item), nested and with
+    tal:content / tal:condition / tal:define mixed in."""
+    simpleTALES.PATHNOTFOUNDEXCEPTION.__traceback__ = None
+    rng = chk.subrng("directed", i)
+    n = rng.randint(2, 6)
+    items = []
+    for k in range(n):
+        it = {"name": "n%d" % k}
+        if rng.random() < 0.5:
+            it["url"] = "gopher://h/%d" % k
+        if rng.random() < 0.5:
+            it["cls"] = rng.choice(["hot", "cold"])
+        if rng.random() < 0.4:
+            it["kids"] = [{"name": "k%d" % j, **({"cls": "deep"} if rng.random() < 0.5 else {})} for j in range(rng.randint(0, 3))]
+        else:
+            it["kids"] = []
+        items.append(it)
+    attrs = rng.sample(["href l/url | default", "class l/cls | default", "title l/url | l/cls | default",
+                        "id l/missing | default", "lang l/cls | nothing"], rng.randint(1, 3))
+    static = rng.sample(['href="#"', 'class="plain"', 'title="static title"', 'lang="en"'], rng.randint(0, 3))
+    inner = rng.choice(['<b tal:content="l/name">x</b>', 'x', '<i tal:condition="l/url | nothing">has url</i>',
+                        '<span tal:repeat="k l/kids" tal:attributes="class k/cls | default" class="kid" tal:content="k/name">k</span>'])
+    extra = rng.choice(["", ' tal:define="u l/url | nothing"', ' tal:condition="l/name"'])
+    tmpl = '<ul><li tal:repeat="l items"%s tal:attributes="%s" %s>%s</li></ul>' % (extra, "; ".join(attrs), " ".join(static), inner)
+    schema = _FixedSchema({"items": items})
+    mon.current = {"case": i, "case_seed": seed, "family": "directed"}
+    res = compare(None, tmpl, schema, "page")
+    if isinstance(res, str):
+        chk.count("reference_abstained")
+        chk.case(None)
+        return
+    chk.count("directed_repeat_attributes_cases")
+    if res is not None:
+        key = "C17/exception:" + res["exception"] if "exception" in res else "C17/expansion-differs-from-reference"
+        chk.witness(key, {"family": "repeat+attributes+default", "case": i, "case_seed": seed, "page": tmpl, "context": schema.vals, "result": res})
+        return
+    chk.case(("directed", len(attrs), len(static), bool(extra), inner[:6]), {"page": tmpl, "items": n} if i < 2 else None)
+
+
 SUBSETS: set = set()
 RULE = ("distinct (set of TAL/METAL commands used in the template, maximum nesting depth, result class "
         "{no-elements, 1-9, 10+ output elements, differs}) triples among cases the reference did not abstain on")
@@ -240,6 +293,8 @@ def main() -> int:
         seed = chk.seed
         for i in range(CASES[chk.tier]):
             run_case(chk, mon, seed, i)
+        for i in range(CASES[chk.tier] // 10):
+            directed_case(chk, mon, seed, i)
         chk.seed = seed
     c = chk.counters
     if not chk.replay_case:
